@@ -121,3 +121,50 @@ func VerifC20Estimations() {
 		vAssert(len(after) >= 1, "C20/tick-removes-exactly-the-estimations-older-than-the-delta")
 	}
 }
+
+// C20 estimation ids: ONE estimation for a symbolic epoch (param 0: 0 = epoch 0, whose encoding is empty;
+// 1 = 1..127; 2 = 128..32767), then the id path of the read API: listContainerSizes(epoch) reports exactly one
+// id, getContainerSize(id) answers with the container and that one estimation, iterateAllContainerSizes and
+// iterateContainerSizes agree. With a single entry stored no prefix collision (D7) can interfere.
+func VerifC20EstimationIDs() {
+	deployFS()
+	vAssume(alphaOn("netmap", "setConfig", []byte("id"), []byte("ContainerFee"), 0))
+	owner, node := vAcct("owner"), vAcct("node")
+	blob := cnrBlob("c", 0, owner)
+	vSign(vAlphabetAcct(), true)
+	ok, _ := vInvoke("container", "put", blob, vBytes("sig", 64), vKey("owner"), []byte{})
+	vAssume(ok)
+	cid := vSha256(blob)
+	vAssume(alphaOn("netmap", "addPeerIR", vBlob("node", 1)))
+	vAssume(alphaOn("netmap", "newEpoch", 1))
+	vAssume(alphaOn("netmap", "newEpoch", 2)) // "node" is in the map of the previous epoch
+
+	e, size := vInt("epoch"), vInt("size")
+	if vParam(0) == 0 {
+		vAssume(e == 0)
+	} else {
+		vAssume(epochClass(e, vParam(0)))
+	}
+	vAssume(size >= 0 && size <= 1000000)
+	vSign(node, true)
+	ok, _ = vInvoke("container", "putContainerSize", e, cid, size, vKey("node"))
+	vAssume(ok)
+
+	okL, rl := vRead("container", "listContainerSizes", e)
+	vAssert(okL && len(rl.([][]byte)) == 1, "C20/listContainerSizes-reports-one-id-per-container-with-estimations")
+	if okL && len(rl.([][]byte)) == 1 {
+		id := rl.([][]byte)[0]
+		okG, rg := vRead("container", "getContainerSize", id)
+		vAssert(okG, "C20/getContainerSize-answers-for-every-listed-id")
+		vRequire(okG, "estimation-fetched-by-its-id")
+		if okG {
+			cs := rg.(ContainerSizes)
+			vAssert(vEq(cs.CID, cid) && len(cs.Estimations) == 1 && cs.Estimations[0].Size == size && vEq(cs.Estimations[0].From, vKey("node")),
+				"C20/getContainerSize-returns-the-container-and-its-estimations")
+		}
+	}
+	got := sizesOf(e, cid)
+	vAssert(len(got) == 1 && got[0].Size == size, "C20/iterateContainerSizes-returns-the-estimation")
+	_, ra := vRead("container", "iterateAllContainerSizes", e)
+	vAssert(len(ra.([]any)) == 1, "C20/iterateAllContainerSizes-returns-the-estimation")
+}
